@@ -704,9 +704,28 @@ Proof.
 Qed.
 
 Definition duration_txt (d : dval) (unit : Z) (useInt : bool) (prec : Z) : bytes :=
-  if useInt then print_Z (Z.quot (d_ns d) unit) else float_txt false (d_quot d) prec.
+  if useInt then print_Z (wrap64 (Z.quot (d_ns d) unit)) else float_txt false (d_quot d) prec.
 Definition duration_jv (d : dval) (unit : Z) (useInt : bool) (prec : Z) : jv :=
-  if useInt then JNum (print_Z (Z.quot (d_ns d) unit)) else float_jv false (d_quot d) prec.
+  if useInt then JNum (print_Z (wrap64 (Z.quot (d_ns d) unit))) else float_jv false (d_quot d) prec.
+
+Lemma quot_half x y : (0 <= x -> 2 <= y -> 0 <= Z.quot x y /\ 2 * Z.quot x y <= x)%Z.
+Proof.
+  intros Hx Hy. assert (H0 : (0 <= Z.quot x y)%Z) by (apply Z.quot_pos; lia). split; [exact H0|].
+  pose proof (Z.mul_quot_le x y ltac:(lia) ltac:(lia)) as H. nia.
+Qed.
+Lemma quot_in_range a b : (- two63Z <= a < two63Z)%Z -> b <> 0%Z -> b <> (-1)%Z -> (- two63Z <= Z.quot a b < two63Z)%Z.
+Proof.
+  intros Ha Hb0 Hb1. unfold two63Z in *.
+  destruct (Z.eq_dec b 1) as [->|Hb2]; [rewrite Z.quot_1_r; lia|].
+  assert (Hq : (Z.abs (Z.quot a b) * 2 <= Z.abs a)%Z).
+  { rewrite <- Z.quot_abs by exact Hb0. destruct (quot_half (Z.abs a) (Z.abs b)) as [H1 H2]; lia. }
+  lia.
+Qed.
+
+Lemma duration_jv_exact d unit prec :
+  (- two63Z <= d_ns d < two63Z)%Z -> unit <> 0%Z -> unit <> (-1)%Z ->
+  duration_jv d unit true prec = JNum (print_Z (Z.quot (d_ns d) unit)).
+Proof. intros Hd H0 H1. unfold duration_jv. rewrite wrap64_id by (apply quot_in_range; assumption). reflexivity. Qed.
 
 Lemma AppendDuration_shape dst d unit useInt prec :
   AppendDuration dst d unit useInt prec = dst ++ duration_txt d unit useInt prec.
